@@ -51,6 +51,8 @@ def small_alphabet(case, rng, cap):
         rest = [p for p in pts if p not in core]
         rng.shuffle(rest)
         pts = sorted(core + rest[:max(0, cap - len(core))])
+    if not pts:
+        pts = [0x61, 0x62, 0x0A]      # rules made of '.' / negated classes only: any characters will do
     return pts
 
 
